@@ -439,7 +439,8 @@ def desugar_conditional_with(fn):
 def set_parents(fn):
     for n in ast.walk(fn):
         for ch in ast.iter_child_nodes(n):
-            ch._parent = n
+            if not isinstance(ch, ast.expr_context):
+                ch._parent = n
     return fn
 
 
